@@ -189,7 +189,12 @@ def run(ses):
     for owner, meth, f in untyped:
         if meth in ('parse', 'build', 'try_encrypt', 'try_decrypt', 'try_sign', 'try_verify'):
             ses.queries.append({'name': '%s::%s has a key parameter typed with version and purpose' % (owner, meth), 'verdict': 'sat', 'expected': 'unsat', 'solver': 'structural', 'agree': [], 'time_s': 0, 'lemma_instances': 0, 'per_solver': {}})
-            violations.append(('%s::%s takes no key typed with (Version, Purpose)' % (owner, meth), call_program(owner, meth, 'V4', 'Local' if 'sign' not in meth and 'verify' not in meth else 'Public', 'PasetoSymmetricKey', 'V2', 'Local', 'untyped')))
+            s_ = Solver(); s_.add(f)
+            if str(s_.check()) == 'sat':       # the protocol instance this untyped entry point belongs to comes from the impl header's own constraint
+                mv, mp = str(s_.model().eval(v, model_completion=True)), str(s_.model().eval(p, model_completion=True))
+            else: mv, mp = 'V4', ('Local' if 'sign' not in meth and 'verify' not in meth else 'Public')
+            other = 'V2' if mv != 'V2' else 'V4'
+            violations.append(('%s::<%s,%s>::%s takes no key typed with (Version, Purpose)' % (owner, mv, mp, meth), call_program(owner, meth, mv, mp, 'PasetoSymmetricKey', other, 'Local', 'untyped')))
     # 4. set_implicit_assertion on V1 / V2
     for owner in OWNERS:
         cons = []
@@ -215,6 +220,7 @@ def run(ses):
                 if srct is not None and tname(srct) == 'Key':
                     cs = [a for a in targs(srct) if 'const' in a]
                     if cs and str(cs[0]['const']).isdigit(): size = int(cs[0]['const'])
+                    elif cs: size = 'any'          # a const generic parameter: the impl exists for every N
                 f = And(M.constrain(a0, v, env, bnds, VC), M.constrain(a1, p, env, bnds, PC))
                 cons.append((f, size, tname(srct) if srct else None))
         if kt == 'PasetoSymmetricKey':
@@ -226,8 +232,8 @@ def run(ses):
         sized = [(f, sz) for f, sz, src in cons if sz is not None]
         bad = []
         for f, sz in sized:
-            okv = [VC[ver] for (k_, ver), sizes in KEYSIZE_OK.items() if k_ == kt and sz in sizes]
-            bad.append(And(f, Not(Or(*[v == x for x in okv]) if okv else BoolVal(False)), n == sz))
+            right = Or(*[And(v == VC[ver], Or(*[n == x for x in sizes])) for (k_, ver), sizes in KEYSIZE_OK.items() if k_ == kt] or [BoolVal(False)])
+            bad.append(And(f, Not(right), n >= 0, n <= 128, *([n == sz] if sz != 'any' else [n != 0])))
         r, m = ask('%s is constructible from a Key<N> whose N is not the protocol\'s key size' % kt, [Or(*bad) if bad else BoolVal(False)])
         if r == 'sat':
             N = m[n].as_long(); ver = str(m[v]); pur = str(m[p])
